@@ -358,6 +358,15 @@ func (e *Exec) intrinsic(name string, fn *ssa.Function, args []Value) (Value, bo
 		return mo, true
 	case "(github.com/cosmos/cosmos-sdk/types.Context).EventManager":
 		return e.modelMethod(args[0].(*ModelObj), "EventManager", nil), true
+	case "(github.com/cosmos/cosmos-sdk/types.Context).CacheContext":
+		c := ctxModel(args[0])
+		if c == nil {
+			e.fail("CacheContext of %T", args[0])
+		}
+		return e.cacheContext(c), true
+	case "ctx.writeCache":
+		e.writeCache(args[0].(*ModelObj))
+		return nil, true
 	case "(github.com/cosmos/cosmos-sdk/types.Context).Logger":
 		return e.modelMethod(args[0].(*ModelObj), "Logger", nil), true
 	case "(*github.com/cosmos/cosmos-sdk/types.EventManager).EmitTypedEvent":
@@ -369,7 +378,7 @@ func (e *Exec) intrinsic(name string, fn *ssa.Function, args []Value) (Value, bo
 		if !ok {
 			e.fail("event manager is %T", p.c.v)
 		}
-		return e.emitTypedEvent(mo.env, args[1]), true
+		return e.emitTypedEventTo(mo, args[1]), true
 	case "github.com/cosmos/cosmos-sdk/runtime.KVStoreAdapter":
 		iv, ok := args[0].(*IfaceV)
 		if !ok || iv.t == nil {
